@@ -74,7 +74,7 @@ CHECKS = {
     ),
     "C10": (
         "metamorphic property-based testing (proptest): substitution of closed sub-formulae by wild-cards bound to their raw results",
-        "No counterexample among generated formulae with 1-3 (one case in seven: 4-12) simultaneous replacements (all occurrences of a chosen sub-formula share one wild-card): raw and sanitised results unchanged; plain formulae through extended entry points with an empty context equal the plain entry points. Thorough tier adds bundled benchmark models. Exploration.",
+        "No counterexample among generated formulae with 1-3 (one case in seven: 4-12) simultaneous replacements (all occurrences of a chosen sub-formula share one wild-card; the wild-card labels follow one of four naming schemes: w_<i>, numbers, constant spellings, operator-/variable-like names): raw and sanitised results unchanged; plain formulae through extended entry points with an empty context equal the plain entry points. Thorough tier adds bundled benchmark models. Exploration.",
         "Only closed sub-formulae are replaced; raw sets come from the dirty entry point on the same graph object.",
         "DESIGN.md section 6, C10",
     ),
